@@ -162,7 +162,7 @@ pub const RUNTIME_GLOBALS: &[&str] = &[
     "string-ci=?", "string<?", "char=?", "string-ref", "substring", "number?", "integer?", "string?", "boolean?", "symbol?", "procedure?", "char->integer", "integer->char", "list-ref", "string->number",
     "string-null?", "values", "identity", "assoc", "assq", "assv", "expt", "exact", "truncate-quotient", "floor-quotient",
     // (ice-9 threads) / ports
-    "make-mutex", "lock-mutex", "unlock-mutex", "current-output-port", "open-file", "open-output-file", "close-port", "force-output",
+    "make-mutex", "lock-mutex", "unlock-mutex", "current-output-port", "current-error-port", "open-file", "open-output-file", "close-port", "force-output",
     // (lipe) / (lipe find)
     "lipe-scan", "lipe-scan-break", "lipe-getopt-client-mount-path", "lipe-getopt-required-attrs", "lipe-getopt-thread-count", "lipe-scan-client-mount-path", "size", "mode", "uid", "gid", "ino",
     "nlink", "blocks", "atime", "ctime", "mtime", "projid", "type", "name", "relative-path", "absolute-path", "file-fid", "lov-pools", "lov-stripe-count", "lov-stripe-size", "lov-mirror-count",
@@ -939,6 +939,18 @@ impl World {
             "current-output-port" => {
                 argc(0)?;
                 Ok(V::Port(0))
+            }
+            "current-error-port" => {
+                // the standard error stream: one port shared by all threads, modelled as a file of its own
+                argc(0)?;
+                let idx = match self.ports.iter().position(|p| matches!(p, PortKind::File(n, _) if n == "<standard error>")) {
+                    Some(i) => i,
+                    None => {
+                        self.ports.push(PortKind::File("<standard error>".to_string(), "w".to_string()));
+                        self.ports.len() - 1
+                    }
+                };
+                Ok(V::Port(idx))
             }
             "open-file" | "open-output-file" => {
                 let fname = string(0)?;
